@@ -34,7 +34,7 @@ def gen_logfile(rng, tier):
     cases += rc.gen_reopen_points(rng)
     cases += rc.gen_offset_width(rng)
     cases += rc.gen_small_limit(rng)
-    cases += rc.gen_random(rng, 45 if tier == "quick" else 1200, 30 if tier == "quick" else 60)
+    cases += rc.gen_random(rng, 36 if tier == "quick" else 1200, 30 if tier == "quick" else 60)
     return cases
 
 
